@@ -95,26 +95,55 @@ ARM64 = {
                     asm="adr x0, {t}"),
     "mark": dict(b=_w(0x52800009), kind="ord", imm16=True,
                  asm="mov w9, #{imm}"),
-    "jmp": dict(b=_w(0x14000000), kind="jmp", sym=(0, 4), asm="b {t}"),
-    "jne": dict(b=_w(0x54000001), kind="jcc", sym=(0, 4), asm="b.ne {t}"),
-    "call": dict(b=_w(0x94000000), kind="call", sym=(0, 4), asm="bl {t}"),
+    "jmp": dict(b=_w(0x14000000), kind="jmp", sym=(0, 3), asm="b {t}"),
+    "jne": dict(b=_w(0x54000001), kind="jcc", sym=(0, 2), asm="b.ne {t}"),
+    "call": dict(b=_w(0x94000000), kind="call", sym=(0, 3), asm="bl {t}"),
     "ret": dict(b=_w(0xD65F03C0), kind="ret", asm="ret"),
     "ijmp": dict(b=_w(0xD61F0000), kind="ijmp", asm="br x0"),
     "icall": dict(b=_w(0xD63F0000), kind="icall", asm="blr x0"),
     "ud2": dict(b=_w(0xD4200000), kind="halt", asm="brk #0"),
 }
 
-VOCAB = {"x64": X64, "ia32": IA32, "arm64": ARM64}
+INTEL = {'nop': 'nop', 'push_rax': 'push rax', 'pop_rax': 'pop rax', 'push_rbx': 'push rbx', 'pop_rbx': 'pop rbx', 'mov_rr': 'mov rbx, rax', 'xor': 'xor eax, eax', 'add': 'add rax, 1', 'lea_sym': 'lea rax, [rip + {t}]', 'mov_sym': 'mov rax, qword ptr [rip + {t}]', 'mark': 'mov eax, {imm}', 'jmp': 'jmp {t}', 'jne': 'jne {t}', 'call': 'call {t}', 'ret': 'ret', 'ijmp': 'jmp rax', 'icall': 'call rax', 'ud2': 'ud2', 'hlt': 'hlt'}
+for _k, _t in INTEL.items():
+    X64[_k]["intel"] = _t
+
+
+def _wb(x):
+    return x.to_bytes(4, "big").hex()
+
+
+# MIPS32 big endian; in the default reorder mode the assembler fills the
+# branch delay slot with a nop, which is part of the encoding here
+MIPS32 = {
+    "nop": dict(b=_wb(0x00000000), kind="ord", asm="nop"),
+    "add": dict(b=_wb(0x25080001), kind="ord", asm="addiu $t0, $t0, 1"),
+    "mov_rr": dict(b=_wb(0x01004825), kind="ord", asm="move $t1, $t0"),
+    "xor": dict(b=_wb(0x01084026), kind="ord", asm="xor $t0, $t0, $t0"),
+    "mark": dict(b=_wb(0x24090000), kind="ord", imm16lo=True,
+                 asm="addiu $t1, $zero, {imm}"),
+    "call": dict(b=_wb(0x0C000000) + "00000000", kind="call", sym=(0, 3),
+                 asm="jal {t}"),
+    "jmp": dict(b=_wb(0x08000000) + "00000000", kind="jmp", sym=(0, 3),
+                asm="j {t}"),
+    "icall": dict(b=_wb(0x0320F809) + "00000000", kind="icall",
+                  asm="jalr $t9"),
+    "ijmp": dict(b=_wb(0x03200008) + "00000000", kind="ijmp",
+                 asm="jr $t9"),
+}
+
+VOCAB = {"x64": X64, "ia32": IA32, "arm64": ARM64, "mips32": MIPS32}
 for _v in VOCAB.values():
     for _e in _v.values():
         _e.setdefault("sym", None)
         _e.setdefault("imm", None)
         _e.setdefault("imm16", False)
+        _e.setdefault("imm16lo", False)
         _e.setdefault("patch", True)
         _e["size"] = len(_e["b"]) // 2
 
 NOP = {"x64": b"\x90", "ia32": b"\x90",
-       "arm64": bytes.fromhex(_w(0xD503201F))}
+       "arm64": bytes.fromhex(_w(0xD503201F)), "mips32": bytes(4)}
 
 
 def encode(isa, key, imm=None):
@@ -127,12 +156,15 @@ def encode(isa, key, imm=None):
     if e["imm16"] and imm is not None:
         w = int.from_bytes(b, "little") | ((imm & 0xFFFF) << 5)
         b = bytearray(w.to_bytes(4, "little"))
+    if e["imm16lo"] and imm is not None:
+        w = int.from_bytes(b, "big") | (imm & 0x7FFF)
+        b = bytearray(w.to_bytes(4, "big"))
     return bytes(b)
 
 
-def asm_text(isa, key, target=None, imm=None):
+def asm_text(isa, key, target=None, imm=None, intel=False):
     e = VOCAB[isa][key]
-    return e["asm"].format(t=target, imm=imm)
+    return e["intel" if intel else "asm"].format(t=target, imm=imm)
 
 
 def decode_imm(isa, key, data):
